@@ -157,6 +157,10 @@ def concretise(v, m, memo=None):
     if hasattr(v, "__pyvc_native__"):  # extension values (pyvc/ext_*.py) that have a native form: native(term, kind) evaluates a z3 term in the model
         return keep(v.__pyvc_native__(lambda t, kind: _num(m.eval(t, model_completion=True), kind), MAX_LEN, NotConcrete))
     tn = type(v).__name__
+    if tn == "Iter" and hasattr(v, "consumed"):  # a one-shot iterator over what it still holds
+        return keep(iter([] if v.consumed else list(concretise(v.seq, m, memo))))
+    if tn == "SymSet" and hasattr(v, "mem"):  # a set of ints given by its membership array: the members among the small ids
+        return keep({i for i in range(-MAX_LEN, MAX_LEN + 1) if z3.is_true(m.eval(z3.Select(v.mem, i), model_completion=True))})
     if tn == "DFrame" and hasattr(v, "cols"):
         import pandas as pd
 
@@ -223,6 +227,11 @@ def _agree(a, b, depth, why, path):
         return len(a) == len(b) and all(agree(x, y, depth + 1, why, path + f"[{i}]") for i, (x, y) in enumerate(zip(a, b)))
     if isinstance(a, dict) and isinstance(b, dict):
         return set(a) == set(b) and all(agree(a[k], b[k], depth + 1, why, path + f"[{k!r}]") for k in a)
+    if hasattr(a, "__next__") and hasattr(b, "__next__"):  # two one-shot iterators: what each of them still holds
+        try:
+            return agree(list(copy.copy(a)), list(copy.copy(b)), depth + 1, why, path + " (items still to come)")
+        except Exception:
+            return False
     try:
         import pandas as pd
 
@@ -299,6 +308,8 @@ def _short(x, n=600):
         with np.printoptions(precision=6, threshold=40, linewidth=200):
             if hasattr(x, "__dict__") and not isinstance(x, type) and type(x).__module__.startswith("swcgeom"):
                 s = f"{type(x).__name__}(" + ", ".join(f"{k}={_short(v, 200)}" for k, v in vars(x).items() if k in ("ndata", "comments", "source") or not k.startswith("_")) + ")"
+            elif hasattr(x, "__next__") and type(x).__name__.endswith("_iterator"):  # a one-shot iterator: show what it holds
+                s = f"iter({list(copy.copy(x))!r})"
             else:
                 s = repr(x)
     except Exception:
@@ -311,6 +322,35 @@ def _pack(x):
         return base64.b64encode(pickle.dumps(x, protocol=4)).decode()
     except Exception:
         return None
+
+
+def _symbolic_lengths(vals):
+    """the symbolic length terms of the sequences among the setup values"""
+    out, seen, stack = [], set(), list(vals)
+    while stack:
+        v = stack.pop()
+        if id(v) in seen or v is None or isinstance(v, (bool, int, float, str, Sym)):
+            continue
+        seen.add(id(v))
+        if isinstance(v, (SArr, PList)):
+            n = getattr(v, "n", None)
+            if isinstance(n, Sym):
+                n = n.z
+            if isinstance(n, z3.ExprRef) and not z3.is_int_value(n):
+                out.append(n)
+            if isinstance(v, PList) and v.items is not None:
+                stack.extend(v.items)
+        elif isinstance(v, PDict) and v.items is not None:
+            stack.extend(v.items.values())
+        elif isinstance(v, Obj):
+            stack.extend(v.fields.values())
+        elif isinstance(v, (tuple, list)):
+            stack.extend(v)
+        elif isinstance(v, dict):
+            stack.extend(v.values())
+        elif type(v).__name__ == "Iter" and hasattr(v, "seq"):
+            stack.append(v.seq)
+    return out
 
 
 def try_replay(ob, timeout_ms=10000):
@@ -328,6 +368,17 @@ def try_replay(ob, timeout_ms=10000):
     if s.check() != z3.sat:
         return dict(status="no-model", key=key)
     m = s.model()
+    lens = _symbolic_lengths(list((ctx.get("params") or {}).values()))
+    if lens:  # prefer a model whose sequences of unknown length are short (any counter-model will do; a short one can be rebuilt natively)
+        for cap in (4, 16, MAX_LEN):
+            s.push()
+            s.add(*[z3.And(n >= 0, n <= cap) for n in lens])
+            r = s.check()
+            if r == z3.sat:
+                m = s.model()
+            s.pop()
+            if r == z3.sat:
+                break
     memo = {}
     try:
         args = {k: concretise(v, m, memo) for k, v in (ctx.get("params") or {}).items()}
